@@ -12,9 +12,11 @@ class C01(Spec):
     lib_srcs = ['bintree.c', 'rbtree.c']
     header_words = ('keys', 'kind', 'cmpmode')
     rule = ('cases = corpus + one case per edge of the breadth-first closure of the Coq model (binary tree and '
-            'red-black tree, 5 elements with keys 0 0 1 1 2 in the quick tier, 7 elements in the thorough tier; '
-            'insert with and without hint, find, erase, foreach in both directions with stop tables, clear, height, '
-            'size) + seeded random histories (up to ~60 nodes, few distinct keys); a case is non-trivial when its '
+            'red-black tree, 5 elements with keys 0 0 1 1 2 and 6 elements 1 0 1 2 0 1 in the quick tier, 6 and 7 elements '
+            'in the thorough tier; insert with and without the hint reported by find (found or not), find, erase, foreach '
+            'in both directions with every stop position, clear, height, size; closure cases run with comparator results '
+            '-1/0/1 and key differences) + seeded random histories (up to ~60 nodes, few distinct keys, three comparator '
+            'magnitudes); a case is non-trivial when its '
             'model trace has at least two completed operations; distinct = distinct (header, operations) text')
     trusted = ['modelled, not verified: the C statements of src/bintree.c and src/rbtree.c are transcribed by hand into '
                'TreeModel.v (inductive tree + zipper contexts); comparison callbacks are modelled as key projections; '
@@ -139,21 +141,22 @@ class C01(Spec):
         return None
 
     def closure(self, tier):
+        # (kind, keys, alphabet, also with cmpmode 1)
         if tier == 'quick':
-            scopes = [('bin', [0, 0, 1, 1, 2]), ('rb', [0, 0, 1, 1, 2]), ('rb', [1, 0, 1, 2, 0, 1])]
+            scopes = [('bin', [0, 0, 1, 1, 2], 'all', True), ('rb', [0, 0, 1, 1, 2], 'all', True),
+                      ('rb', [1, 0, 1, 2, 0, 1], 'all', True)]
         else:
-            scopes = [('bin', [0, 0, 1, 1, 2, 2]), ('rb', [0, 0, 1, 1, 2, 2]),
-                      ('bin', [0, 0, 1, 1, 2, 2, 3], 'all-sparse'), ('rb', [0, 0, 1, 1, 2, 2, 3], 'all-sparse'),
-                      ('bin', [1, 0, 1, 2, 0, 1], 'all-sparse'), ('rb', [2, 1, 0, 1, 2, 1, 0], 'all-sparse')]
+            scopes = [('bin', [0, 0, 1, 1, 2, 2], 'all', True), ('rb', [0, 0, 1, 1, 2, 2], 'all', True),
+                      ('bin', [0, 0, 1, 1, 2, 2, 3], 'all-sparse', False), ('rb', [0, 0, 1, 1, 2, 2, 3], 'all-sparse', False),
+                      ('bin', [1, 0, 1, 2, 0, 1], 'all-sparse', False), ('rb', [2, 1, 0, 1, 2, 1, 0], 'all-sparse', False)]
         cases, tot = [], dict(states=0, transitions=0, closed=True)
-        for sc in scopes:
-            kind, keys = sc[0], sc[1]
-            cs, st = self.bfs([kind, 2000000, sc[2] if len(sc) > 2 else 'all'] + keys)
-            cases += cs
+        for kind, keys, mode, both in scopes:
+            cs, st = self.bfs([kind, 2000000, mode] + keys)
+            cases += T.with_cmpmodes(cs) if both else cs
             tot['states'] += st.get('states', 0)
             tot['transitions'] += st.get('transitions', 0)
             tot['closed'] = tot['closed'] and st.get('closed', False)
-        return T.with_cmpmodes(cases), tot
+        return cases, tot
 
     def random_cases(self, tier, seed):
         rnd = random.Random(seed * 7919 + 101)
